@@ -76,7 +76,17 @@ def player_files(repo):
     return sorted(n + ".c" for n in names if os.path.exists(os.path.join(repo, "src", n + ".c")))
 
 
+_AST_CACHE = {}
+
+
 def clang_ast(repo, fname):
+    key = (repo, fname)
+    if key not in _AST_CACHE:
+        _AST_CACHE[key] = _clang_ast(repo, fname)
+    return _AST_CACHE[key]
+
+
+def _clang_ast(repo, fname):
     src = os.path.join(repo, "src", fname)
     cmd = ["clang-14", "-fsyntax-only", "-Xclang", "-ast-dump=json", "-I" + os.path.join(repo, "include"),
            "-I" + os.path.join(repo, "src"), "-DLIBXMP_STATIC", "-DHAVE_POWF=1", "-DHAVE_FNMATCH=1", "-DHAVE_DIRENT=1",
@@ -370,6 +380,111 @@ def scan_file(args):
     return entries, called
 
 
+# ---- control skeleton of the functions that patch / restore -------------------
+
+TOKS = ["patch", "restore", "loopBegin", "loopEnd", "cont", "brk", "ifBegin", "elseBegin", "ifEnd", "ret", "unsupported"]
+
+
+def _param_records(fn):
+    out = []
+    for c in fn.get("inner", []):
+        if c.get("kind") == "ParmVarDecl":
+            t = (c.get("type") or {}).get("desugaredQualType") or (c.get("type") or {}).get("qualType") or ""
+            out.append(record_of(t)[0])
+    return out
+
+
+def skeletons(repo, entries):
+    """Token streams (structured control flow + patch/restore calls) of every function of mixer.c that calls the
+    wrap-around patch or restore function.  Roles are recognised by signature and by what the functions store to,
+    not by name: both store to sample bytes through loop_data.sptr; the patch function also takes the voice."""
+    ast = clang_ast(repo, "mixer.c")
+    writers = {e["func"] for e in entries if e["file"] == "mixer.c" and e["target"] == "sampleBytes" and e["via"] == "loop_data.sptr"}
+    fns = {d.get("name"): d for d in ast.get("inner", [])
+           if d.get("kind") == "FunctionDecl" and any(c.get("kind") == "CompoundStmt" for c in d.get("inner", []))}
+    patch = {n for n in writers if n in fns and "loop_data" in _param_records(fns[n]) and "mixer_voice" in _param_records(fns[n])}
+    restore = {n for n in writers if n in fns and _param_records(fns[n]) == ["loop_data"]}
+    if len(patch) != 1 or len(restore) != 1 or (writers - patch - restore):
+        raise GenError("cannot identify the wrap-around patch/restore pair in mixer.c: patch=%s restore=%s writers=%s" % (
+            sorted(patch), sorted(restore), sorted(writers)))
+
+    def callee_name(n):
+        c = strip((n.get("inner") or [None])[0])
+        return (c.get("referencedDecl") or {}).get("name") if c else None
+
+    def has_pr(n):
+        if not isinstance(n, dict):
+            return False
+        if n.get("kind") == "CallExpr" and callee_name(n) in patch | restore:
+            return True
+        return any(has_pr(c) for c in n.get("inner") or [])
+
+    def walk(n, out):
+        if not isinstance(n, dict) or not n:
+            return
+        k = n.get("kind")
+        inner = n.get("inner") or []
+        if k == "IfStmt":
+            walk(inner[0], out)
+            out.append("ifBegin")
+            walk(inner[1], out)
+            if len(inner) > 2:
+                out.append("elseBegin")
+                walk(inner[2], out)
+            out.append("ifEnd")
+        elif k in ("ForStmt", "WhileStmt", "DoStmt"):
+            if k == "ForStmt":
+                walk(inner[0], out)
+                out.append("loopBegin")
+                for c in inner[1:3]:
+                    walk(c, out)
+                walk(inner[4] if len(inner) > 4 else None, out)
+                walk(inner[3] if len(inner) > 3 else None, out)
+            else:
+                out.append("loopBegin")
+                for c in inner:
+                    walk(c, out)
+            out.append("loopEnd")
+        elif k == "ContinueStmt":
+            out.append("cont")
+        elif k == "BreakStmt":
+            out.append("brk")
+        elif k == "ReturnStmt":
+            for c in inner:
+                walk(c, out)
+            out.append("ret")
+        elif k in ("SwitchStmt", "ConditionalOperator", "BinaryConditionalOperator") or (
+                k == "BinaryOperator" and n.get("opcode") in ("&&", "||")):
+            if has_pr(n):
+                out.append("unsupported")     # patch/restore under control flow the checker does not model
+        elif k in ("GotoStmt", "IndirectGotoStmt", "LabelStmt"):
+            out.append("unsupported")
+            for c in inner:
+                walk(c, out)
+        elif k == "CallExpr":
+            for c in inner[1:]:
+                walk(c, out)
+            nm = callee_name(n)
+            if nm in patch:
+                out.append("patch")
+            elif nm in restore:
+                out.append("restore")
+        else:
+            for c in inner:
+                walk(c, out)
+
+    res = []
+    for name, d in sorted(fns.items()):
+        if name in patch | restore or not has_pr(d):
+            continue
+        out = []
+        walk([c for c in d["inner"] if c.get("kind") == "CompoundStmt"][0], out)
+        res.append((name, out))
+    if not res:
+        raise GenError("no function of mixer.c calls the wrap-around patch/restore pair")
+    return res
+
+
 # ---- constants --------------------------------------------------------------
 
 def constants(repo):
@@ -419,6 +534,7 @@ def generate(repo=None):
         e["playerCalled"] = e["func"] in called
     uniq = sorted({(e["file"], e["func"], e["target"], e["smix"], e["field"], e["via"], e["playerCalled"]) for e in entries})
     k = constants(repo)
+    skel = skeletons(repo, entries)
     L = []
     L.append("/-! GENERATED by tools/gen_data_writers.py from the libxmp working tree — do not edit. -/")
     L.append("namespace Xmp.Gen.DataWriters\n")
@@ -452,6 +568,16 @@ def generate(repo=None):
     L.append("def guardPostFrames : Nat := %d" % k["guardPostFrames"])
     L.append("/-- `invloop_table` (src/player.c): per-tick increment of the invert-loop counter by effect speed -/")
     L.append("def invloopTable : List Nat := [" + ", ".join(str(x) for x in k["invloopTable"]) + "]")
+    L.append("")
+    L.append("/-- structured control flow of a C function reduced to what matters for the patch protocol -/")
+    L.append("inductive Tok where")
+    L.append("  | " + " | ".join(TOKS))
+    L.append("  deriving DecidableEq, Repr\n")
+    L.append("/-- every function of mixer.c that calls the wrap-around patch (`Tok.patch`) or restore (`Tok.restore`) function,")
+    L.append("in source order: loops, if/else, continue, break, return and those calls -/")
+    L.append("def patchSkeletons : List (String × List Tok) := [")
+    L.append(",\n".join("  (%s, [%s])" % (lean_str(n), ", ".join("." + t for t in toks)) for n, toks in skel))
+    L.append("]")
     L.append("\nend Xmp.Gen.DataWriters\n")
     return "\n".join(L), entries
 
